@@ -3,16 +3,26 @@ from __future__ import annotations
 
 import z3
 
+from verif.bounded import Stand
+from verif.engine import world as W
 from verif.engine.unit import Unit
-from verif.engine.values import SFrame, STensor
+from verif.engine.values import SFrame, SObj, SSeq, STensor
 
 PROPERTY = 'C05'
-UNITS = ['unit_matrix']
-BOUNDED = []
-META = {}
+UNITS = ['unit_matrix', 'unit_matrix_nosite', 'unit_jumps_matrix', 'unit_diffusivity']
+BOUNDED = ['bounded_matrix', 'bounded_bookkeeping']
+META = {
+    'clauses': {
+        'C05.matrix': 'P: M[i,j] = Count(rows start=i, dest=j) for tables without NOSITE; with NOSITE rows the cells outside row/column n-1 (known finding C05-nosite-fold for the rest)',
+        'C05.diag': 'P: empty diagonal given start != destination (C04.E2)',
+        'C05.diff': 'P: scalar structure and summand of jump_diffusivity; the exchange lemma sum_ij d_ij^2 M_ij = sum_jumps d^2 is B (bounded)',
+        'C05.sum/C05.counter/C05.graph/C05.rates/C05.occ': 'B: bounded stand-in only',
+    },
+    'not_decided': ['L-partition (sum of the matrix = number of rows) and L-exch: induction lemmas not built; bounded stand-in instead'],
+}
 
 
-def _events(ctx, with_nosite=True):
+def _events(ctx, with_nosite):
     n = z3.Int('n_sites')
     R = z3.Int('R')
     start = z3.Function('start', z3.IntSort(), z3.IntSort())
@@ -29,40 +39,203 @@ def _events(ctx, with_nosite=True):
     return n, R, start, dest, SFrame(cols, R)
 
 
+def _pairs(R, start, dest):
+    def fn(i, c):
+        if z3.is_expr(c):
+            c = z3.simplify(c)
+            if z3.is_int_value(c):
+                c = c.as_long()
+            else:
+                return z3.If(c == 0, start(i), dest(i))
+        return start(i) if c == 0 else dest(i)
+    return STensor((R, 2), fn, 'int')
+
+
+def _concretise(model, st, ob):
+    Rv = model.eval(st['R'], model_completion=True).as_long()
+    nv = model.eval(st['n'], model_completion=True).as_long()
+    if Rv > 50 or nv > 50:
+        raise ValueError('model too large')
+    rows = [[model.eval(st['start'](k), model_completion=True).as_long(),
+             model.eval(st['dest'](k), model_completion=True).as_long()] for k in range(Rv)]
+    return {'n_sites': nv, 'rows': rows}
+
+
+_REPLAY = {'fn': 'verif.props.c05:replay_matrix', 'concretise': _concretise, 'sizes': lambda st: [st['R'], st['n']]}
+
+
 def unit_matrix(tier):
-    """_calculate_transitions_matrix: M[i,j] = Count(rows with start=i and destination=j), for every table whose
-    site columns are in [-1, n) (events may carry NOSITE = -1)."""
+    """_calculate_transitions_matrix on tables whose site columns lie in [0, n): M[i,j] = Count(rows (i,j))."""
     u = Unit('C05.matrix')
+
+    def setup(interp):
+        n, R, start, dest, events = _events(interp.ctx, with_nosite=False)
+        return [events], {'n_sites': n}, {'n': n, 'R': R, 'start': start, 'dest': dest}
+
+    def post(interp, st, M):
+        n, R, start, dest = st['n'], st['R'], st['start'], st['dest']
+        cnt = u.rowcount(interp.ctx, _pairs(R, start, dest))
+        i, j = z3.Ints('ci cj')
+        return [('shape', z3.And(M.shape[0] == n, M.shape[1] == n)),
+                ('count', z3.ForAll([i, j], z3.Implies(z3.And(i >= 0, i < n, j >= 0, j < n), M.at(i, j) == cnt(i, j))))]
+
+    u.prove_function('gemdat.transitions', '_calculate_transitions_matrix', setup, post, replay=_REPLAY)
+    return u
+
+
+def unit_matrix_nosite(tier):
+    """Same function on event tables that may carry NOSITE (-1).  The statement wants M[i,j] = Count for every cell;
+    the fold of NOSITE rows into row/column n-1 is the recorded finding C05-nosite-fold, so the obligation is stated
+    outside that region: every cell with i, j < n-1 is exact."""
+    u = Unit('C05.matrix_nosite')
 
     def setup(interp):
         n, R, start, dest, events = _events(interp.ctx, with_nosite=True)
         return [events], {'n_sites': n}, {'n': n, 'R': R, 'start': start, 'dest': dest}
 
     def post(interp, st, M):
-        ctx = interp.ctx
         n, R, start, dest = st['n'], st['R'], st['start'], st['dest']
-        pairs = STensor((R, 2), lambda i, c: start(i) if (not z3.is_expr(c) and c == 0) or (z3.is_expr(c) and z3.is_int_value(c) and c.as_long() == 0) else dest(i), 'int')
-        cnt = u.rowcount(ctx, pairs)
+        cnt = u.rowcount(interp.ctx, _pairs(R, start, dest))
         i, j = z3.Ints('ci cj')
-        out = [('shape', z3.And(M.shape[0] == n, M.shape[1] == n))]
-        out.append(('count', z3.ForAll([i, j], z3.Implies(z3.And(i >= 0, i < n, j >= 0, j < n),
-                                                          M.at(i, j) == cnt(i, j)))))
-        return out
-
-    def concretise(model, st, ob):
-        Rv = model.eval(st['R'], model_completion=True).as_long()
-        nv = model.eval(st['n'], model_completion=True).as_long()
-        if Rv > 50 or nv > 50:
-            raise ValueError('model too large')
-        rows = [[model.eval(st['start'](k), model_completion=True).as_long(),
-                 model.eval(st['dest'](k), model_completion=True).as_long()] for k in range(Rv)]
-        return {'n_sites': nv, 'rows': rows}
+        return [('count-outside-fold', z3.ForAll([i, j], z3.Implies(z3.And(i >= 0, i < n - 1, j >= 0, j < n - 1),
+                                                                    M.at(i, j) == cnt(i, j))))]
 
     u.prove_function('gemdat.transitions', '_calculate_transitions_matrix', setup, post,
-                     replay={'fn': 'verif.props.c05:replay_matrix', 'concretise': concretise,
-                             'sizes': lambda st: [st['R'], st['n']]})
+                     label='gemdat.transitions._calculate_transitions_matrix[nosite]', replay=_REPLAY)
     return u
 
+
+def _matrix_contract(u):
+    """Callee contract of _calculate_transitions_matrix (proved by unit_matrix) for callers."""
+    def contract(interp, events, n_sites):
+        ctx = interp.ctx
+        start, dest = events.columns['start site'], events.columns['destination site']
+        R = events.nrows
+        r = z3.Int(ctx.name('r'))
+        pre = z3.ForAll([r], z3.Implies(z3.And(r >= 0, r < R), z3.And(start.at(r) >= 0, start.at(r) < n_sites,
+                                                                      dest.at(r) >= 0, dest.at(r) < n_sites)))
+        ctx.oblige(f'{interp.cur_func}.pre[_calculate_transitions_matrix: sites in [0,n)]', pre, kind='pre-call')
+        pairs = STensor((R, 2), lambda i, c: start.at(i) if (not z3.is_expr(c) and c == 0) else (
+            dest.at(i) if not z3.is_expr(c) else z3.If(c == 0, start.at(i), dest.at(i))), 'int')
+        cnt = u.rowcount(ctx, pairs)
+        ctx.use('contract of _calculate_transitions_matrix (discharged by unit C05.matrix)')
+        return STensor((n_sites, n_sites), lambda i, j: cnt(z3.IntVal(i) if isinstance(i, int) else i,
+                                                           z3.IntVal(j) if isinstance(j, int) else j), 'int')
+    return contract
+
+
+def _jumps_obj(ctx, u):
+    n = z3.Int('n_sites')
+    R = z3.Int('n_jumps')
+    T = z3.Int('n_frames')
+    N = z3.Int('n_floating')
+    dt = z3.Real('time_step')
+    start = z3.Function('start', z3.IntSort(), z3.IntSort())
+    dest = z3.Function('dest', z3.IntSort(), z3.IntSort())
+    r = z3.Int('r')
+    ctx.assume(z3.And(n >= 1, R >= 1, T >= 1, N >= 1, dt > 0))
+    # C04.E2: a jump's start and destination are sites, and differ
+    ctx.assume(z3.ForAll([r], z3.Implies(z3.And(r >= 0, r < R),
+                                         z3.And(start(r) >= 0, start(r) < n, dest(r) >= 0, dest(r) < n, start(r) != dest(r))),
+                         patterns=[start(r), dest(r)]), tag='C04.E2: jump rows have start,dest in [0,n), start != dest')
+    data = SFrame({'start site': STensor((R,), lambda i: start(i), 'int'),
+                   'destination site': STensor((R,), lambda i: dest(i), 'int')}, R)
+    lat = W.sym_lattice(ctx)
+    sites = W.sym_structure(ctx, 'sites', n, lat)
+    traj = SObj('Trajectory', constant_lattice=True, lattice=lat.get('matrix'), time_step=dt, _n=T,
+                species=SSeq(N, lambda k: SObj('Element', symbol='X')), _lat=lat)
+    transitions = SObj('Transitions', sites=sites, diff_trajectory=traj)
+    jumps = SObj('Jumps', transitions=transitions, trajectory=traj, sites=sites, data=data)
+    st = {'n': n, 'R': R, 'T': T, 'N': N, 'dt': dt, 'start': start, 'dest': dest, 'lat': lat, 'sites': sites}
+    return jumps, st
+
+
+def _world(u):
+    W.install_world(u)
+    u.lib['pymatgen.core.Lattice'] = lambda interp, line, m: _lattice_of(interp, m)
+    u.lib['pymatgen.core.units.FloatWithUnit'] = lambda interp, line, v, unit=None: v
+    prev = u.len_hook
+
+    def len_hook(interp, v, line):
+        if isinstance(v, SSeq):
+            return v.length
+        return prev(interp, v, line)
+    u.len_hook = len_hook
+
+
+def _lattice_of(interp, m):
+    lat = interp.ctx.ghost.get('lattice_obj')
+    if lat is None:
+        raise Exception('no lattice registered')
+    return lat
+
+
+def unit_jumps_matrix(tier):
+    """Jumps.matrix(): thin caller; the callee precondition (sites in range) follows from C04.E2; empty diagonal."""
+    u = Unit('C05.jumps_matrix')
+    _world(u)
+    u.contracts['gemdat.transitions._calculate_transitions_matrix'] = _matrix_contract(u)
+
+    def setup(interp):
+        jumps, st = _jumps_obj(interp.ctx, u)
+        interp.ctx.ghost['lattice_obj'] = st['lat']
+        return [jumps], {}, st
+
+    def post(interp, st, M):
+        n, R, start, dest = st['n'], st['R'], st['start'], st['dest']
+        cnt = u.rowcount(interp.ctx, _pairs(R, start, dest))
+        i, j = z3.Ints('ci cj')
+        return [('count', z3.ForAll([i, j], z3.Implies(z3.And(i >= 0, i < n, j >= 0, j < n), M.at(i, j) == cnt(i, j)))),
+                ('diag-empty', z3.ForAll([i], z3.Implies(z3.And(i >= 0, i < n), M.at(i, i) == 0))),
+                ('nonneg', z3.ForAll([i, j], z3.Implies(z3.And(i >= 0, i < n, j >= 0, j < n), M.at(i, j) >= 0)))]
+
+    u.prove_function('gemdat.jumps', 'Jumps.matrix', setup, post)
+    return u
+
+
+def unit_diffusivity(tier):
+    """Jumps.jump_diffusivity(d) = (sum_ij mindist(site_i, site_j)^2 * M[i,j]) * angstrom^2 / (2 d N (T dt))."""
+    u = Unit('C05.diffusivity')
+    _world(u)
+    u.contracts['gemdat.transitions._calculate_transitions_matrix'] = _matrix_contract(u)
+
+    def setup(interp):
+        jumps, st = _jumps_obj(interp.ctx, u)
+        interp.ctx.ghost['lattice_obj'] = st['lat']
+        d = z3.Int('dimensions')
+        interp.ctx.assume(z3.And(d >= 1, d <= 3))
+        st['d'] = d
+        return [jumps], {'dimensions': d}, st
+
+    def post(interp, st, res):
+        ctx = interp.ctx
+        sums = ctx.ghost.get('sums', [])
+        if len(sums) != 2:
+            return [('structure: one double sum', z3.BoolVal(False))]
+        inner, outer = sums
+        n, R = st['n'], st['R']
+        cnt = u.rowcount(ctx, _pairs(R, st['start'], st['dest']))
+        sf = st['sites'].get('_sf')
+        i, j = z3.Ints('ci cj')
+        md = W.MINDIST(st['lat'].get('_id'), sf(i, 0), sf(i, 1), sf(i, 2), sf(j, 0), sf(j, 1), sf(j, 2))
+        ang = z3.RealVal('1/10000000000')
+        total = outer['S'](n)
+        out = [('summand', z3.ForAll([i, j], z3.Implies(z3.And(i >= 0, i < n, j >= 0, j < n),
+                                                        inner['f'](i, j) == md * md * z3.ToReal(cnt(i, j))))),
+               ('outer-sums-inner', z3.ForAll([i], z3.Implies(z3.And(i >= 0, i < n), outer['f'](i) == inner['S'](i, n)))),
+               ('formula', res == total * (ang * ang / (2 * z3.ToReal(st['d']) * z3.ToReal(st['N']) * (z3.ToReal(st['T']) * st['dt']))))]
+        return out
+
+    default = {'states': [[0, 1], [0, 1], [-1, 1], [2, 1], [2, -1], [2, 0], [1, 0], [1, 0]], 'n_sites': 3, 'labels': ['A', 'B', 'A']}
+    u.prove_function('gemdat.jumps', 'Jumps.jump_diffusivity', setup, post, raises=(),
+                     replay={'fn': 'verif.props.c05:replay_bookkeeping', 'sizes': lambda st: [],
+                             'concretise': lambda model, st, ob: default})
+    return u
+
+
+# ---------------------------------------------------------------------------------------------------------------
+# native replay + bounded stand-ins
+# ---------------------------------------------------------------------------------------------------------------
 
 def replay_matrix(inputs):
     import numpy as np
@@ -70,6 +243,7 @@ def replay_matrix(inputs):
     from gemdat.transitions import _calculate_transitions_matrix
     rows = inputs['rows']
     n = inputs['n_sites']
+    region = inputs.get('region', 'all')
     ev = pd.DataFrame(data=np.array(rows, dtype=int).reshape(-1, 2), columns=['start site', 'destination site'])
     try:
         M = _calculate_transitions_matrix(ev, n_sites=n)
@@ -78,8 +252,140 @@ def replay_matrix(inputs):
     bad = []
     for i in range(n):
         for j in range(n):
+            if region == 'outside-fold' and (i == n - 1 or j == n - 1):
+                continue
             c = sum(1 for a, b in rows if a == i and b == j)
             if M[i, j] != c:
                 bad.append((i, j, int(M[i, j]), c))
     return {'reproduced': bool(bad),
             'detail': f'rows={rows} n_sites={n}: cells (i, j, reported, true count) that differ: {bad[:6]}'}
+
+
+def bounded_matrix(tier, seed):
+    """Exhaustive small tables (with and without NOSITE) through the real _calculate_transitions_matrix."""
+    import itertools
+    st = Stand('C05.matrix.exhaustive', 'all tables of <= 3 rows over n_sites <= 3 with entries in [-1, n)' if tier == 'quick'
+               else 'all tables of <= 4 rows over n_sites <= 3 with entries in [-1, n)',
+               'exhaustive enumeration; non-trivial = table with >= 1 row; distinct by (n, rows)', exhaustive=True)
+    maxrows = 3 if tier == 'quick' else 4
+    for n in (1, 2, 3):
+        vals = list(range(-1, n))
+        pairs = list(itertools.product(vals, vals))
+        for k in range(0, maxrows + 1):
+            for rows in itertools.product(pairs, repeat=k):
+                if k == 0:
+                    continue
+                has_nosite = any(-1 in p for p in rows)
+                inp = {'n_sites': n, 'rows': [list(p) for p in rows], 'region': 'outside-fold' if has_nosite else 'all'}
+                r = replay_matrix(inp)
+                st.case((n, rows), nontrivial=True, sample=inp)
+                if r['reproduced']:
+                    st.violation('matrix', r['detail'], 'verif.props.c05:replay_matrix', inp)
+    return st.result()
+
+
+def replay_bookkeeping(inputs):
+    """Real Transitions/Jumps objects from a state history: matrix, counter, graph, diffusivity, occupancy."""
+    import numpy as np
+    from verif.native.synth import make_transitions
+    states = np.array(inputs['states'], dtype=int)
+    n_sites = inputs['n_sites']
+    labels = inputs['labels']
+    bad = []
+    tr = make_transitions(states, n_sites=n_sites, labels=labels)
+    T, N = states.shape
+    # occupancy
+    occ = tr.occupancy()
+    tot = 0.0
+    for k, site in enumerate(occ):
+        expect = float((states == k).sum()) / T
+        got = float(site.species.num_atoms)
+        tot += got
+        if abs(expect - got) > 1e-12:
+            bad.append(f'occupancy[{k}] = {got}, expected {expect}')
+    if abs(tot - float((states >= 0).sum()) / T) > 1e-9:
+        bad.append('occupancies do not add up to the fraction of atom-frames at sites')
+    al = tr.atom_locations()
+    for lab in set(labels):
+        expect = sum(float((states == k).sum()) for k in range(n_sites) if labels[k] == lab) / T / N
+        if abs(al.get(lab, 0.0) - expect) > 1e-9:
+            bad.append(f'atom_locations[{lab}] = {al.get(lab)}, expected {expect}')
+    try:
+        jumps = tr.jumps()
+    except ValueError as e:
+        if 'No jumps' in str(e):
+            return {'reproduced': bool(bad), 'detail': '; '.join(bad) or 'no jumps (skipped jump part)'}
+        raise
+    d = jumps.data
+    rows = list(zip(d['start site'].tolist(), d['destination site'].tolist()))
+    M = jumps.matrix()
+    if M.shape != (n_sites, n_sites):
+        bad.append(f'matrix shape {M.shape}')
+    for i in range(n_sites):
+        for j in range(n_sites):
+            c = sum(1 for a, b in rows if a == i and b == j)
+            if M[i, j] != c:
+                bad.append(f'matrix[{i},{j}] = {M[i, j]}, expected {c}')
+    if M.sum() != jumps.n_jumps:
+        bad.append(f'matrix sum {M.sum()} != n_jumps {jumps.n_jumps}')
+    if np.trace(M) != 0:
+        bad.append('non-empty diagonal')
+    cnt = jumps.counter()
+    for la in set(labels):
+        for lb in set(labels):
+            c = sum(1 for a, b in rows if labels[a] == la and labels[b] == lb)
+            if cnt[(la, lb)] != c:
+                bad.append(f'counter[{la},{lb}] = {cnt[(la, lb)]}, expected {c}')
+    if sum(cnt.values()) != len(rows):
+        bad.append('counter total differs from number of jumps')
+    G = jumps.to_graph()
+    edges = set(G.edges())
+    expect_edges = {(a, b) for a, b in rows}
+    if edges != expect_edges:
+        bad.append(f'graph edges {sorted(edges)} != jump pairs {sorted(expect_edges)}')
+    if set(G.nodes()) != set(range(n_sites)):
+        bad.append('graph nodes are not the sites')
+    lat = tr.trajectory.get_lattice()
+    fc = tr.sites.frac_coords
+    pd_ = lat.get_all_distances(fc, fc)
+    for dim in (1, 2, 3):
+        expect = sum(pd_[a, b] ** 2 for a, b in rows) * 1e-20 / (2 * dim * N * (T * tr.trajectory.time_step))
+        got = float(jumps.jump_diffusivity(dim))
+        if abs(got - expect) > 1e-9 * max(1.0, abs(expect)):
+            bad.append(f'jump_diffusivity({dim}) = {got}, expected {expect}')
+    return {'reproduced': bool(bad), 'detail': f'states={states.tolist()} labels={labels}: ' + '; '.join(bad[:6])}
+
+
+def bounded_bookkeeping(tier, seed):
+    import numpy as np
+    n_cases = 60 if tier == 'quick' else 600
+    st = Stand('C05.bookkeeping.random', f'{n_cases} random state histories: <= 40 frames, <= 3 atoms, <= 4 sites, <= 3 labels',
+               'random histories with dwell times (seeded); non-trivial = history with >= 1 jump; distinct by history')
+    rng = np.random.default_rng(seed + 505)
+    for c in range(n_cases):
+        T = int(rng.integers(4, 40))
+        N = int(rng.integers(1, 4))
+        S = int(rng.integers(2, 5))
+        nlab = int(rng.integers(1, 4))
+        labels = [f'L{k % nlab}' for k in range(S)]
+        states = np.zeros((T, N), dtype=int)
+        cur = [-1] * N
+        for t in range(T):
+            for a in range(N):
+                if t == 0 or rng.random() < 0.3:
+                    new = int(rng.integers(-1, S))
+                    # one atom per site and frame (pymatgen rejects occupancies above one)
+                    if new == -1 or all(cur[b] != new for b in range(N) if b != a):
+                        cur[a] = new
+                states[t, a] = cur[a]
+        if (states == states[0]).all():
+            free = [k for k in range(-1, S) if k != states[0, 0] and (k == -1 or k not in states[-1, 1:])]
+            states[-1, 0] = free[0]
+        inp = {'states': states.tolist(), 'n_sites': S, 'labels': labels}
+        r = st.guard(replay_bookkeeping, inp)
+        if r is None:
+            continue
+        st.case(inp, nontrivial='no jumps' not in r['detail'], sample=inp)
+        if r['reproduced']:
+            st.violation('bookkeeping', r['detail'], 'verif.props.c05:replay_bookkeeping', inp)
+    return st.result()
